@@ -66,6 +66,11 @@ Proof. vm_compute. reflexivity. Qed.
    spat = 4 pi sr, square degree = (pi/180)^2 sr ...), to the seven-digit class (the mil is a seven-digit rounding) *)
 Theorem c05_anchors_turn : forallb anchor_seven turn_anchors = true.
 Proof. vm_compute. reflexivity. Qed.
+(* the 220 primitive units no other anchor covers (CGS-emu/esu units, CODATA constants used as units, NIST SP 811 customary
+   units, information units ...) have exactly the reference values frozen in Spec/RefAnchors.v *)
+From UomV Require Import Spec.RefAnchors.
+Theorem c05_reference_values : forallb anchor_exact reference_values = true /\ List.length reference_values = 220%nat.
+Proof. split; vm_compute; reflexivity. Qed.
 
 (* only the two temperature-point scales carry an offset *)
 Theorem c05_only_two_offsets :
